@@ -130,6 +130,7 @@ func cmdCheck(args []string) int {
 	budgetOverride := fs.Duration("budget", 0, "override exploration budget")
 	filter := fs.String("filter", "", "only jobs whose id contains this (development)")
 	maxJobs := fs.Int("max-jobs", 0, "only the first N jobs (development)")
+	listVio := fs.Bool("list-violations", false, "print every job with a violated label (development)")
 	var id string
 	if len(args) > 0 && !strings.HasPrefix(args[0], "-") {
 		id = args[0]
@@ -192,6 +193,13 @@ func cmdCheck(args []string) int {
 	results := r.Run(jobs, budget)
 	exploreT := time.Since(t1)
 
+	if *listVio {
+		for _, jr := range results {
+			for _, k := range sortedKeys(jr.Vio) {
+				fmt.Printf("JOBVIO %q %s\n", k, jr.Job.ID())
+			}
+		}
+	}
 	// collect violations (one per label per property; keep the first job that showed it)
 	byLabel := map[string]*vioReport{}
 	var order []string
